@@ -535,33 +535,35 @@ Corollary incomplete_is_ok b c0 cs p minimum allowed now :
   exists st en c, eval_partition p minimum allowed now = Ok (StOK, st, en, c).
 Proof. intros Hsh Hg. rewrite (eval_partition_shape _ _ _ _ _ _ _ Hsh), Hg. eauto. Qed.
 
-(* With every slot unfilled (group known only through owner updates) storage reports current lag 0,
-   so nothing is dereferenced. *)
+(* With every slot unfilled (a partition known only through owner updates) the window left after slicing is empty:
+   nothing is dereferenced whatever the current lag, the status is OK, no first/last commit is reported and the
+   completeness is 0/N (after the `fix:` commit for finding F4: before it the slice kept one nil entry, the completeness
+   was 1/N - i.e. 1.0 for a one-slot window - and a lag above the allowed lag dereferenced nil). *)
 Theorem eval_partition_all_nil b p minimum allowed now :
-  cp_offsets p = repeat None b -> cp_lag p <= allowed ->
-  exists c, eval_partition p minimum allowed now = Ok (StOK, None, None, c).
+  cp_offsets p = repeat None b ->
+  eval_partition p minimum allowed now =
+  Ok (StOK, None, None,
+      match b with O => f32_zero | _ => f32_div (f32_of_int 0) (f32_of_int (Z.of_nat b)) end).
 Proof.
-  intros Hsh Hlag. unfold eval_partition. rewrite Hsh, repeat_length.
-  destruct b as [|b]; [eexists; reflexivity|].
+  intros Hsh. unfold eval_partition. rewrite Hsh, repeat_length.
+  destruct b as [|b]; [reflexivity|].
   replace (repeat None (S b)) with (repeat (@None coff) (S b) ++ map Some []) by (cbn [map]; rewrite app_nil_r; reflexivity).
   rewrite first_some_idx_shape.
-  replace (S b - 1)%nat with b by lia.
   cbn [map]. rewrite app_nil_r.
-  replace (repeat None (S b)) with (repeat (@None coff) b ++ [None]).
-  2:{ clear. induction b; [reflexivity|]. cbn [repeat app]. f_equal. exact IHb. }
-  rewrite skipn_repeat_app. cbn [length last].
-  rewrite within_allowed_is_ok by exact Hlag.
-  destruct (f32_ge _ _); eexists; reflexivity.
+  replace (skipn (S b) (repeat (@None coff) (S b))) with (@nil (option coff)).
+  2:{ rewrite <- (app_nil_r (repeat None (S b))). rewrite skipn_repeat_app. reflexivity. }
+  cbn [length]. replace (0 <? S b)%nat with true by (symmetry; apply Nat.ltb_lt; lia).
+  reflexivity.
 Qed.
 
-(* every window of the storage shape evaluates without a nil dereference *)
+(* every window of the storage shape evaluates without a nil dereference, whatever the lag *)
 Corollary eval_partition_no_crash b cs p minimum allowed now :
-  cp_offsets p = repeat None b ++ map Some cs -> (cs = [] -> cp_lag p <= allowed) ->
+  cp_offsets p = repeat None b ++ map Some cs ->
   exists r, eval_partition p minimum allowed now = Ok r.
 Proof.
-  intros Hsh Hl. destruct cs as [|c0 cs].
+  intros Hsh. destruct cs as [|c0 cs].
   - cbn [map] in Hsh. rewrite app_nil_r in Hsh.
-    destruct (eval_partition_all_nil b p minimum allowed now Hsh (Hl eq_refl)) as (c & ->). eauto.
+    rewrite (eval_partition_all_nil b p minimum allowed now Hsh). eauto.
   - rewrite (eval_partition_shape _ _ _ _ _ _ _ Hsh). eauto.
 Qed.
 
